@@ -467,6 +467,9 @@ def pre(tier):
 # conv_elect_while_initializing, attr_custom_data_uninitialised (F2 re-introduced), lock_without_conversion, switch_inverted,
 # barrier_serial_untranslated.  Also tried and CAUGHT, not kept (limit of 8): conversion forgets to reset `state`, detach state
 # not copied, errorcheck/recursive swapped, pthread_tryjoin_np -> myth_join_body, pthread_cond_timedwait -> myth_cond_wait_body.
+# imported call-protocol jobs: the same real functions carry this property's clause in another unit's harness
+import importlib as _il
+JOBS = list(JOBS) + [j for j in _il.import_module("units.c11").JOBS if "quick" in j.tiers and not j.name.endswith(".forwarders")]
 META = {
  "level": "other",
  "level_text": "Adapter layer only. Contracts on the real text of src/myth_wrap_pthread.c (link-time-wrapping build; the preloading build is "
